@@ -5,6 +5,7 @@ From PGV Require Import Extracted.SourceConst.
 From PGV Require Import Model.RuleText Spec.RuleTextSpec Proofs.RuleTextProofs Proofs.C14Final Run.Run_C14.
 From PGV Require Import Base.MiniGo Extracted.SourceFnsParse Model.GoParse Proofs.GoParseProofs.
 From PGV Require Import Extracted.SourceFnsSplit Model.GoSplit Proofs.GoSplitProofs.
+From PGV Require Import Extracted.SourceFnsGen Proofs.GoGenProofs Proofs.GoRMProofs.
 
 (* Splitting loses no characters: the pieces joined by the separator give back the text, up to
    one trailing separator.  For every byte string and every separator byte other than the quote
@@ -76,3 +77,25 @@ Theorem C14_splitter_from_source : forall (s : str) (seps : list byte),
   run_split fn_ValidNamesSplit s seps = Some (names_split (sep_of seps) s).
 Proof. exact split_from_source. Qed.
 Print Assumptions C14_splitter_from_source.
+
+(* fn_GenValidKV is the syntax tree of GenValidKV (valid/rule.go), the documented helper that writes one rule,
+   regenerated on every run.  Under the semantics of Model/GoParse.v (the variadic values, the pooled
+   strings.Builder as the text written so far, the switch on the key, byte indexing with its run-time bound, && and ||
+   evaluating their right operand only when needed) it computes the model's gen_kv for EVERY key and EVERY list of
+   values — no guard on their shape — and never indexes out of range: the builder of the round-trip theorems above IS
+   what the source text says. *)
+Theorem C14_builder_from_source : forall (key : str) (values : list str),
+  run_gen fn_GenValidKV key values = Some (gen_kv key values).
+Proof. exact gen_from_source. Qed.
+Print Assumptions C14_builder_from_source.
+
+(* fn_RM_Set and fn_RM_Get are the syntax trees of (r RM) Set and (r RM) Get (valid/rule.go), regenerated on every run.
+   Under the semantics of Model/GoParse.v (the map as the model's association list — only Get observes it —, the range
+   loop over strings.Split(filedNames, ","), v, ok := r[k], r[k] = x, r[k] += x, strings.Join) they compute the model's
+   rm_set and rm_get for EVERY rule map, field-name text and list of rules (rm_set by induction over the field names).
+   With the three theorems above, every stage of the pipeline of C14_list_roundtrip is the source text's. *)
+Theorem C14_rule_map_from_source : forall (r : rm) (fields field : str) (rules : list str),
+  run_rm_set fn_RM_Set r fields rules = Some (rm_set r fields rules) /\
+  run_rm_get fn_RM_Get r field = Some (rm_get r field).
+Proof. exact (fun r fields field rules => conj (rm_set_from_source r fields rules) (rm_get_from_source r field)). Qed.
+Print Assumptions C14_rule_map_from_source.
